@@ -33,3 +33,12 @@ Theorem C12_run_is_clear_then_jump : forall c n l, lenN (l_ops l) + 2 <= MAX_POO
   l_ops (fst (l_push_run c n l)) = l_ops l ++ [OpClear; OpJump 0] /\ snd (l_push_run c n l) = Ok tt.
 Proof. exact run_is_clear_then_jump. Qed.
 Print Assumptions C12_run_is_clear_then_jump.
+
+(* CLEAR forgets: two machines that agree on everything static (listing, compiled code and DATA, program counter, trace,
+   cursor and run state) and on their position in the entropy stream are identical after CLEAR, whatever their variables,
+   arrays, DEFtype settings, user functions, value stacks, DATA pointers, random-number states and CONT slots were.  RUN is
+   CLEAR followed by a jump (above), so what a program does from RUN on cannot depend on any of those. *)
+From BL Require Import Proofs.Swap.
+Theorem C12_clear_forgets : forall O r r', static_eq r r' -> fst (do_clear O r) = fst (do_clear O r').
+Proof. exact clear_forgets. Qed.
+Print Assumptions C12_clear_forgets.
